@@ -51,6 +51,7 @@ typedef struct myth_tls_key_entry {
 
 /* the toplevel data structure to allocate unsed keys from */
 typedef struct myth_tls_key_allocator {
+  myth_spinlock_t lock;		/* serialises pop and push of the free list */
   myth_tls_key_entry_t * free;	/* head of free list */
   myth_tls_key_entry_t keys[myth_tls_n_keys]; /* cells in the free list */
 } myth_tls_key_allocator_t;
